@@ -40,14 +40,15 @@ import (
 // ---------------------------------------------------------------- ordering monitor
 
 type vOrd struct {
-	mu      sync.Mutex
-	cond    *sync.Cond
-	seen    map[string]int
-	trace   []string
-	holdAt  string
-	until   string
-	held    int
-	process int64
+	mu       sync.Mutex
+	cond     *sync.Cond
+	seen     map[string]int
+	trace    []string
+	holdAt   string
+	until    string
+	held     int
+	process  int64
+	busyHeld bool
 }
 
 func vNewOrd() *vOrd {
@@ -59,6 +60,7 @@ func vNewOrd() *vOrd {
 func (o *vOrd) set(holdAt, until string) {
 	o.mu.Lock()
 	o.holdAt, o.until = holdAt, until
+	o.busyHeld = false
 	o.seen = map[string]int{}
 	o.trace = nil
 	o.mu.Unlock()
@@ -69,6 +71,20 @@ func (o *vOrd) handlers() *verifHandlers {
 		Point: func(name string) {
 			if name == "core.process.end" {
 				atomic.AddInt64(&o.process, 1)
+				// "busy core loop": the loop is kept from taking the next block (once per ordering) until Stop has signalled,
+				// so the source's producer is waiting to hand over a block at the moment it is told to stop
+				o.mu.Lock()
+				if o.holdAt == name && o.until != "" && o.seen[o.until] == 0 && !o.busyHeld {
+					o.busyHeld = true
+					o.held++
+					t := time.AfterFunc(150*time.Millisecond, func() { o.mu.Lock(); o.cond.Broadcast(); o.mu.Unlock() })
+					deadline := time.Now().Add(150 * time.Millisecond)
+					for o.seen[o.until] == 0 && time.Now().Before(deadline) {
+						o.cond.Wait()
+					}
+					t.Stop()
+				}
+				o.mu.Unlock()
 			}
 			if name == "core.idle" || name == "core.process.end" || strings.HasPrefix(name, "abaco.") || strings.HasPrefix(name, "lancero.") || strings.HasPrefix(name, "process.") {
 				return // too frequent for the trace; not used in orderings
@@ -134,16 +150,16 @@ func (o *vOrd) orderings() []string {
 // ---------------------------------------------------------------- source adapters
 
 type vLife struct {
-	name    string
-	ds      DataSource
-	any     *AnySource
-	workers []string // substrings of frames that belong to this source's worker goroutines
-	config  func() error
-	feed    func(on bool) // hardware sending or silent (where it applies)
-	selfEnd func()        // make the source end itself now (where it applies)
+	name     string
+	ds       DataSource
+	any      *AnySource
+	workers  []string // substrings of frames that belong to this source's worker goroutines
+	config   func() error
+	feed     func(on bool) // hardware sending or silent (where it applies)
+	selfEnd  func()        // make the source end itself now (where it applies)
 	nchan    int           // channel count for the next configure (sources where it can be chosen)
-	released func() bool  // have the (scripted) devices been released? (nil where it cannot be observed)
-	close   func()
+	released func() bool   // have the (scripted) devices been released? (nil where it cannot be observed)
+	close    func()
 }
 
 func vRoachPacket(nchan, nsamp int, sampnum uint64) []byte {
@@ -403,13 +419,13 @@ func vCensusLeaks(frames []string) []string {
 }
 
 type vLifeRun struct {
-	c      *vCase
-	l      *vLife
-	ord    *vOrd
-	queued chan func()
-	dir    string
-	hist   []string
-	dead   bool
+	c       *vCase
+	l       *vLife
+	ord     *vOrd
+	queued  chan func()
+	dir     string
+	hist    []string
+	dead    bool
 	running bool // the last Start succeeded and no Stop has returned since
 }
 
@@ -589,6 +605,11 @@ func vRunLife(c *vCase) {
 		x.request(func() { l.any.ChangeTriggerState(&fts) })
 		time.Sleep(20 * time.Millisecond)
 		c.Cov("writing_started", 1)
+		if vChance(r, 0.4) {
+			// the run is paused when the source stops or ends: it is still a run with open files
+			x.request(func() { l.any.WriteControl(&WriteControlConfig{Request: "PAUSE"}) })
+			c.Cov("writing_paused_at_end", 1)
+		}
 		return true
 	}
 	switch {
@@ -692,7 +713,8 @@ func vRunLife(c *vCase) {
 			}
 			c.Cov("repeat_histories", 1)
 		case 2, 3: // concurrent Stop callers, with forced orderings between them and the core loop
-			pairs := [][2]string{{"", ""}, {"stop.signalled", "core.exit.closed"}, {"core.exit.closed", "stop.waited"}, {"stop.enter", "stop.signalled"}, {"deactivate.enter", "stop.enter"}}
+			pairs := [][2]string{{"", ""}, {"stop.signalled", "core.exit.closed"}, {"core.exit.closed", "stop.waited"}, {"stop.enter", "stop.signalled"}, {"deactivate.enter", "stop.enter"},
+				{"core.process.end", "stop.signalled"}, {"core.process.end", "stop.signalled"}}
 			pr := pairs[r.Intn(len(pairs))]
 			for i := 0; i < 2 && !x.dead; i++ {
 				if !x.start(true) {
@@ -702,6 +724,10 @@ func vRunLife(c *vCase) {
 					startWriting()
 				}
 				ord.set(pr[0], pr[1])
+				if pr[0] == "core.process.end" {
+					time.Sleep(time.Duration(8+r.Intn(25)) * time.Millisecond) // the producer has its next block ready and waits for the held loop
+					c.Cov("stops_while_core_loop_busy", 1)
+				}
 				x.stop(2 + r.Intn(3))
 				ord.set("", "")
 				x.afterStop()
